@@ -343,3 +343,46 @@ def table_class(base):
 
     Table.__name__ = "Table" + base.__name__
     return Table
+
+
+def table_opb_class(base=None):
+    """An OPB class of the user's that keeps what it is given in a table of its own: add_clause and add_constraint are
+    overridden (the latter normalises as the library's does), and so are the accessors that present the constraints."""
+    from cnfgen.formula.opb import OPB
+    from cnfgen.formula.baseopb import normalize_opb
+    base = base or OPB
+
+    class TableOPB(base):
+        def __init__(self, *args, **kw):
+            self._own_rows = []
+            base.__init__(self, *args, **kw)
+
+        def add_clause(self, clause, check=True):
+            row = [(1, l) for l in clause] + [">=", 1]
+            if check:
+                self._check_and_update(row)
+            self._own_rows.append(row)
+
+        def add_constraint(self, constraint, check=True):
+            row = normalize_opb(list(constraint))
+            if check:
+                self._check_and_update(row)
+            self._own_rows.append(row)
+
+        def number_of_constraints(self):
+            return len(self._own_rows)
+
+        def constraints(self):
+            return iter([list(c) for c in self._own_rows])
+
+        def __len__(self):
+            return len(self._own_rows)
+
+        def __iter__(self):
+            return iter([list(c) for c in self._own_rows])
+
+        def __getitem__(self, idx):
+            return list(self._own_rows[idx])
+
+    TableOPB.__name__ = "Table" + base.__name__
+    return TableOPB
